@@ -2,6 +2,7 @@
 package main
 
 import (
+	"strings"
 	"time"
 
 	"github.com/tuneinsight/lattigo/v6/ring"
@@ -14,7 +15,16 @@ func ringPolyCopyNew(o interface{}) interface{} { return o.(*ring.Poly).CopyNew(
 func allCases() []copyCase {
 	var cs []copyCase
 	cs = append(cs, rlweCases()...)
+	for _, cc := range rlweCases() {
+		if strings.HasPrefix(cc.name, "rlwe.Decryptor") || strings.HasPrefix(cc.name, "rlwe.Encryptor") || strings.HasPrefix(cc.name, "rlwe.Evaluator") {
+			cc.name += "@coef"
+			cc.envKind = "rlwe-coef"
+			cs = append(cs, cc)
+		}
+	}
 	cs = append(cs, deepCases()...)
+	cs = append(cs, schemeCases()...)
+	cs = append(cs, mpCases()...)
 	return cs
 }
 
